@@ -1059,6 +1059,10 @@ func (g *gen) bindLocals(env *SpecEnv) {
 		for v := range set {
 			if val, ok := g.vals[v]; ok {
 				env.vars[name] = &SV{V: val}
+				if env.fallback == nil {
+					env.fallback = map[string]bool{}
+				}
+				env.fallback[name] = true
 			}
 		}
 	}
